@@ -126,6 +126,35 @@ func runBounds(c *Ctx, rule string, fns []*ssa.Function) int {
 			}
 		}
 	}
+	// a helper that hands back its (resized) slice: len(result) == the int parameter n when every
+	// return value is x[:n] (directly, or read back from the pointer it was just stored through)
+	for _, fn := range fns {
+		pc := provers[fn]
+		for _, ci := range callsIn(fn) {
+			call, ok := ci.(*ssa.Call)
+			if !ok {
+				continue
+			}
+			h := staticCallee(call)
+			if h == nil || provers[h] == nil || h.Signature.Results().Len() != 1 {
+				continue
+			}
+			if _, isSl := h.Signature.Results().At(0).Type().Underlying().(*types.Slice); !isSl {
+				continue
+			}
+			lenPar := sliceLenPostParam(h)
+			if lenPar == nil {
+				continue
+			}
+			pi := paramIndex(lenPar)
+			if pi < 0 || pi >= len(call.Call.Args) {
+				continue
+			}
+			d := pc.lenOf(call, call.Block()).sub(pc.val(call.Call.Args[pi], call.Block()))
+			why := "post-condition of " + fnName(h) + ": len(result) == " + lenPar.Name()
+			pc.global = append(pc.global, fact{d, why}, fact{d.scale(-1), why})
+		}
+	}
 	for _, fn := range fns {
 		p := provers[fn]
 		ord := map[string]int{}
@@ -390,6 +419,30 @@ func propC17(c *Ctx) {
 		w.Fn("bint", "Decode"), w.Fn("shovel", "(*jsonDuration).UnmarshalJSON"),
 	}
 	c.Rule("R17.1", "every index/slice in the wire decoders is proven in range from the guards present", 12)
+	// … and in the helpers of their own package they call (a shared resize, a digit classifier)
+	{
+		in := map[*ssa.Function]bool{}
+		for _, f := range fns {
+			in[f] = true
+		}
+		level := append([]*ssa.Function{}, fns...)
+		for d := 0; d < 2; d++ {
+			var next []*ssa.Function
+			for _, f := range level {
+				for _, ci := range callsIn(f) {
+					h := staticCallee(ci)
+					if h == nil || h.Blocks == nil || in[h] || !isRepoFunc(h) || h.Pkg == nil || h.Pkg != f.Pkg {
+						continue
+					}
+					in[h] = true
+					next = append(next, h)
+				}
+			}
+			sortFuncs(next)
+			fns = append(fns, next...)
+			level = next
+		}
+	}
 	n := runBounds(c, "R17.1", fns)
 	c.Stats["bounds_obligations"] = n
 
@@ -693,6 +746,17 @@ func propC17(c *Ctx) {
 		}
 		ok := payload != nil
 		detail := "hex.Decode call not found"
+		for _, ci := range callsIn(um) {
+			if call, isCall := ci.(*ssa.Call); isCall {
+				if lp := sliceLenPostParam(staticCallee(call)); lp != nil {
+					if pi := paramIndex(lp); pi >= 0 && pi < len(call.Call.Args) {
+						d := p.lenOf(call, call.Block()).sub(p.val(call.Call.Args[pi], call.Block()))
+						why := "post-condition of " + fnName(staticCallee(call)) + ": len(result) == " + lp.Name()
+						p.global = append(p.global, fact{d, why}, fact{d.scale(-1), why})
+					}
+				}
+			}
+		}
 		if payload != nil {
 			detail = ""
 			pf := newPathFacts(um)
@@ -710,6 +774,11 @@ func propC17(c *Ctx) {
 				for _, ins := range b.Instrs {
 					if st, isSt := ins.(*ssa.Store); isSt && st.Addr == p.cell {
 						cur = &memVersion{val: st.Val, id: "st"}
+					}
+					if call, isCall := ins.(*ssa.Call); isCall {
+						if mv := p.callVersion(call); mv != nil {
+							cur = mv
+						}
 					}
 				}
 				if cur == nil || cur.val == nil {
@@ -801,4 +870,89 @@ func dataDerived(res *Resolver, v ssa.Value, seen map[ssa.Value]bool) bool {
 		}
 	}
 	return false
+}
+
+// sliceLenPostParam: h returns a slice whose length is its int parameter n on
+// every return: the value returned is x[:n], directly or read back from the
+// pointer it was stored through just before (`*hb = (*hb)[:n]; return *hb`).
+func sliceLenPostParam(h *ssa.Function) *ssa.Parameter {
+	if h == nil || h.Blocks == nil || h.Signature.Results().Len() != 1 {
+		return nil
+	}
+	if _, isSl := h.Signature.Results().At(0).Type().Underlying().(*types.Slice); !isSl {
+		return nil
+	}
+	var lenPar *ssa.Parameter
+	rets := returnsOf(h)
+	for _, r := range rets {
+		v := stripConv(returnValues(r)[0])
+		if u, isU := v.(*ssa.UnOp); isU && u.Op == token.MUL {
+			var last ssa.Value
+			for _, in := range u.Block().Instrs {
+				if in == ssa.Instruction(u) {
+					break
+				}
+				switch x := in.(type) {
+				case *ssa.Store:
+					if x.Addr == u.X {
+						last = x.Val
+					} else {
+						last = nil
+					}
+				case ssa.CallInstruction:
+					_ = x
+					last = nil
+				}
+			}
+			if last == nil {
+				return nil
+			}
+			v = stripConv(last)
+		}
+		sl, isSl := v.(*ssa.Slice)
+		if !isSl || sl.Low != nil || sl.High == nil {
+			return nil
+		}
+		p, isP := stripNum(sl.High).(*ssa.Parameter)
+		if !isP || (lenPar != nil && lenPar != p) {
+			return nil
+		}
+		lenPar = p
+	}
+	if len(rets) == 0 {
+		return nil
+	}
+	return lenPar
+}
+
+// storesResultThroughRecv: every return of h hands back what it has just stored through its
+// first (pointer) parameter: after the call the pointee IS the result.
+func storesResultThroughRecv(h *ssa.Function) bool {
+	if h == nil || h.Blocks == nil || len(h.Params) == 0 {
+		return false
+	}
+	recv := h.Params[0]
+	rets := returnsOf(h)
+	for _, r := range rets {
+		u, isU := stripConv(returnValues(r)[0]).(*ssa.UnOp)
+		if !isU || u.Op != token.MUL || u.X != ssa.Value(recv) || u.Block() != r.Block() {
+			return false
+		}
+		// no store/call between the read-back and the return
+		after := false
+		for _, in := range r.Block().Instrs {
+			if in == ssa.Instruction(u) {
+				after = true
+				continue
+			}
+			if !after {
+				continue
+			}
+			switch in.(type) {
+			case *ssa.Store, ssa.CallInstruction:
+				return false
+			}
+		}
+	}
+	return len(rets) > 0
 }
